@@ -98,3 +98,8 @@ def run(rep, tier, seed):
              "trace event" % (nres, na))
     if acc == 0 and not rep.violations and not rep.known_hits:
         raise report.Machinery("no integrated call was accepted (vacuous)")
+
+
+def selftest(seed):
+    from checks import selftest as st
+    return st.run([st.integrator])
